@@ -87,8 +87,12 @@ func (mp MultiPolygon) Centroid() Point {
 				cy += (r[i].Y + r[i+1].Y) *
 					(r[i].X*r[i+1].Y - r[i+1].X*r[i].Y)
 			}
-			cx /= 6 * a
-			cy /= 6 * a
+			// The sums above carry the sign of the ring's winding direction, so
+			// they are normalized by the signed area; a (positive for shells,
+			// negative for holes whatever the winding) is only the weight.
+			sa := signedarea(r)
+			cx /= 6 * sa
+			cy /= 6 * sa
 			A += a
 			xA += cx * a
 			yA += cy * a
